@@ -18,19 +18,22 @@
 using namespace vf;
 // ------------------------------------------------------------------ kernel model
 static int k_nfd = 3, k_ep = -1, k_efd = -1, k_tfd = -1;
+static int k_pr = -1, k_pw = -1, k_plen; static const int k_pcap = 4; static unsigned char k_pipe[4];
 static uint64_t k_efd_count, k_tfd_exp; static int k_tfd_armed; static uint64_t k_tfd_due;
 static void* k_regdata[8]; static int k_registered[8], k_closed[8], k_wake, k_syscalls, k_in_remote, k_fired;
 static int k_errno;
 extern "C" int* __errno_location() noexcept { return &k_errno; }
-static void k_upd() { k_wake = ((k_efd_count > 0 && k_registered[k_efd]) || ((k_tfd_armed || k_tfd_exp) && k_registered[k_tfd])) ? 1 : 0; }
+static int k_pr_ready(); static int k_pw_ready();
+static void k_upd() { k_wake = ((k_efd_count > 0 && k_registered[k_efd]) || ((k_tfd_armed || k_tfd_exp) && k_registered[k_tfd]) || k_pr_ready() || k_pw_ready()) ? 1 : 0; }
 static void inject(int blocking);      // environment: other threads' actions (defined below)
 extern "C" int epoll_create(int) noexcept { return k_ep = k_nfd++; }
 extern "C" int eventfd(unsigned, int) noexcept { return k_efd = k_nfd++; }
 extern "C" int timerfd_create(int, int) noexcept { return k_tfd = k_nfd++; }
 extern "C" int epoll_ctl(int ep, int op, int fd, epoll_event* ev) noexcept {
   VF_ASSERT(ep == k_ep && fd >= 3 && fd < 8, "epoll_ctl on an unknown descriptor");
-  if (op == EPOLL_CTL_DEL) { VF_ASSERT(k_registered[fd], "EPOLL_CTL_DEL of a descriptor that is not registered"); k_registered[fd] = 0; }
-  else { if (op == EPOLL_CTL_ADD) VF_ASSERT(!k_registered[fd], "EPOLL_CTL_ADD of a registered descriptor"); k_registered[fd] = 1; k_regdata[fd] = ev->data.ptr; }
+  bool io = fd == k_pr || fd == k_pw;        // for I/O descriptors the library ignores the result: ENOENT / EEXIST are returned like the kernel does
+  if (op == EPOLL_CTL_DEL) { if (!k_registered[fd]) { VF_ASSERT(io, "EPOLL_CTL_DEL of a descriptor that is not registered"); k_errno = ENOENT; return -1; } k_registered[fd] = 0; }
+  else { if (op == EPOLL_CTL_ADD && k_registered[fd]) { VF_ASSERT(io, "EPOLL_CTL_ADD of a registered descriptor"); k_errno = EEXIST; return -1; } k_registered[fd] = 1; k_regdata[fd] = ev->data.ptr; }
   k_upd(); return 0;
 }
 extern "C" int timerfd_settime(int fd, int flags, const itimerspec* nv, itimerspec*) noexcept {
@@ -42,7 +45,7 @@ extern "C" int timerfd_settime(int fd, int flags, const itimerspec* nv, itimersp
   k_upd(); return 0;
 }
 extern "C" int epoll_wait(int ep, epoll_event* ev, int max, int timeout) {
-  VF_ASSERT(ep == k_ep && max >= 2, "unexpected epoll_wait");
+  VF_ASSERT(ep == k_ep && max >= 4, "unexpected epoll_wait");
   inject(timeout != 0);
   // the kernel timer expires once the clock has reached its due time; while the I/O thread sits in a blocking wait with
   // nothing else to wake it, time passes until that happens; otherwise it may or may not have happened yet
@@ -55,6 +58,8 @@ extern "C" int epoll_wait(int ep, epoll_event* ev, int max, int timeout) {
   // (events are reported in a fixed order: eventfd first; no symbolic array indices in the stub)
   if (e_) { ev[0].events = EPOLLIN; ev[0].data.ptr = k_regdata[k_efd]; n = 1; if (t_) { ev[1].events = EPOLLIN; ev[1].data.ptr = k_regdata[k_tfd]; n = 2; } }
   else if (t_) { ev[0].events = EPOLLIN; ev[0].data.ptr = k_regdata[k_tfd]; n = 1; }
+  if (k_pr_ready()) { ev[n].events = EPOLLIN; ev[n].data.ptr = k_regdata[k_pr]; ++n; }
+  if (k_pw_ready()) { ev[n].events = EPOLLOUT; ev[n].data.ptr = k_regdata[k_pw]; ++n; }
   if (timeout != 0) VF_ASSERT(n > 0, "lost wake-up: the I/O thread blocks in epoll_wait forever although work is pending or stop was requested");
   k_upd(); return n;
 }
@@ -68,6 +73,30 @@ extern "C" ssize_t read(int fd, void* buf, size_t n) {
 extern "C" ssize_t write(int fd, const void* buf, size_t n) {
   VF_ASSERT(n == 8 && fd == k_efd, "unexpected write");
   k_efd_count += *(const uint64_t*)buf; k_upd(); return 8;
+}
+static int k_pr_ready() { return k_pr >= 0 && k_registered[k_pr] && k_plen > 0; }
+static int k_pw_ready() { return k_pw >= 0 && k_registered[k_pw] && k_plen < k_pcap; }
+// one pipe (non-blocking both ends): capacity 4 bytes; bytes keep their order; a ghost log numbers every byte ever written
+static unsigned char k_log[16]; static int k_nlog, k_ncons, k_rd_from = -1, k_rd_n, k_wr_from = -1, k_wr_n;          // all bytes ever written / how many were consumed so far
+#include <sys/uio.h>
+extern "C" int pipe2(int fd[2], int) noexcept { fd[0] = k_pr = k_nfd++; fd[1] = k_pw = k_nfd++; return 0; }
+static void k_push(unsigned char b) { k_pipe[k_plen++] = b; if (k_nlog < 16) k_log[k_nlog] = b; ++k_nlog; }
+static unsigned char k_pop() { unsigned char b = k_pipe[0]; for (int i = 1; i < k_pcap; ++i) k_pipe[i - 1] = k_pipe[i]; --k_plen; ++k_ncons; return b; }
+extern "C" ssize_t readv(int fd, const iovec* iov, int cnt) {
+  if (!k_in_remote) inject(0);
+  VF_ASSERT(fd == k_pr && cnt == 1, "unexpected readv");
+  if (k_plen == 0) { k_errno = EAGAIN; return -1; }
+  int n = 0; unsigned char* dst = (unsigned char*)iov[0].iov_base; k_rd_from = k_ncons;
+  for (int i = 0; i < k_pcap; ++i) if (k_plen > 0 && (size_t)n < iov[0].iov_len) dst[n++] = k_pop();
+  k_rd_n = n; k_upd(); return n;
+}
+extern "C" ssize_t writev(int fd, const iovec* iov, int cnt) {
+  if (!k_in_remote) inject(0);
+  VF_ASSERT(fd == k_pw && cnt == 1, "unexpected writev");
+  if (k_plen == k_pcap) { k_errno = EAGAIN; return -1; }
+  int n = 0; const unsigned char* src = (const unsigned char*)iov[0].iov_base; k_wr_from = k_nlog;
+  for (int i = 0; i < k_pcap; ++i) if (k_plen < k_pcap && (size_t)n < iov[0].iov_len) k_push(src[n++]);
+  k_wr_n = n; k_upd(); return n;
 }
 extern "C" int close(int fd) { VF_ASSERT(fd >= 3 && fd < 8, "close of an unknown descriptor"); ++k_closed[fd]; VF_ASSERT(k_closed[fd] == 1, "descriptor closed twice"); return 0; }
 // ------------------------------------------------------------------ code under test
@@ -98,6 +127,38 @@ using tp_t = monotonic_clock::time_point;
 using at_op_t = connect_result_t<decltype(std::declval<sched_t>().schedule_at(tp_t{})), trec>;
 using s_op_t = connect_result_t<decltype(std::declval<sched_t>().schedule()), trec>;
 static at_op_t* at_op[3]; static s_op_t* s_op[3];
+// ---- async read / write on the pipe (ids 3 = read, 4 = write)
+#include <unifex/io_concepts.hpp>
+#include <unifex/span.hpp>
+#include <system_error>
+static unsigned char rbuf[2], wbuf[2]; static int io_done[2], io_value[2], io_cancel_sent[2]; static long io_n[2]; static int io_first_seq[2];
+static simple_stop_source* io_ss[2];
+static void free_io(int k) noexcept;
+struct irec {
+  int k;   // 0 = read, 1 = write
+  void fin(bool value) noexcept {
+    ++io_done[k]; io_value[k] = value; VF_ASSERT(io_done[k] == 1, "I/O operation completed more than once");
+    VF_ASSERT(inside_run && unifex::linuxos::currentThreadContext == ctx, "I/O completion delivered on a thread that is not inside run()");
+    VF_ASSERT(io_ss[k]->live_regs == 0, "stop callback still registered when the I/O receiver was completed");
+    VF_ASSERT(!k_registered[k == 0 ? k_pr : k_pw], "the context still has the descriptor registered with epoll (pointing at this operation) when the operation completed");
+    free_io(k);
+  }
+  void set_value(ssize_t n) && noexcept { io_n[k] = n; fin(true); }
+  void set_error(std::error_code) && noexcept { VF_ASSERT(false, "unexpected I/O error"); }
+  void set_error(std::exception_ptr) && noexcept { VF_ASSERT(false, "unexpected I/O exception"); }
+  void set_done() && noexcept { VF_ASSERT(io_cancel_sent[k], "I/O set_done without a stop request"); fin(false); }
+  friend simple_stop_token tag_invoke(tag_t<get_stop_token>, const irec& r) noexcept { return {io_ss[r.k]}; }
+};
+using rw_pair_t = decltype(open_pipe(std::declval<sched_t>()));
+static rw_pair_t* rw;
+using r_op_t = connect_result_t<decltype(async_read_some(std::declval<decltype(rw->first)&>(), span<std::byte>{})), irec>;
+using w_op_t = connect_result_t<decltype(async_write_some(std::declval<decltype(rw->second)&>(), span<const std::byte>{})), irec>;
+static r_op_t* r_op; static w_op_t* w_op;
+static void free_io(int k) noexcept { if (k == 0) { delete r_op; r_op = nullptr; } else { delete w_op; w_op = nullptr; } }
+static void start_read() { io_ss[0] = new simple_stop_source(); ++expected; io_first_seq[0] = -1;
+  r_op = new r_op_t(connect(async_read_some(rw->first, span<std::byte>{(std::byte*)rbuf, 2}), irec{0})); start(*r_op); }
+static void start_write() { io_ss[1] = new simple_stop_source(); ++expected; wbuf[0] = nondet_u8(); wbuf[1] = nondet_u8();
+  w_op = new w_op_t(connect(async_write_some(rw->second, span<const std::byte>{(const std::byte*)wbuf, 2}), irec{1})); start(*w_op); }
 static void free_op(int id) noexcept { if (at_op[id]) { delete at_op[id]; at_op[id] = nullptr; } if (s_op[id]) { delete s_op[id]; s_op[id] = nullptr; } }
 static void start_timer(int id, uint64_t d) { due[id] = d; ss[id] = new simple_stop_source(); ++expected;
   at_op[id] = new at_op_t(connect(ctx->get_scheduler().schedule_at(tp_t::from_seconds_and_nanoseconds(0, (long long)d)), trec{id})); start(*at_op[id]); }
@@ -116,6 +177,12 @@ static void remote(int kind) {
     case 4: start_sched(2); break;                           // plain remote schedule()
     case 5: cancel_sent[1] = 1; ss[1]->request_stop(); break; // remote stop request for B
     case 6: start_sched(1); break;
+    case 7: start_read(); break;
+    case 8: start_write(); break;
+    case 9: io_cancel_sent[0] = 1; io_ss[0]->request_stop(); break;
+    case 10: io_cancel_sent[1] = 1; io_ss[1]->request_stop(); break;
+    case 11: if (k_plen > 0) { (void)k_pop(); k_upd(); } break;          // another process reads one byte from the pipe
+    case 12: if (k_plen < k_pcap) { k_push(0x5a); k_upd(); } break;      // another process writes one byte into the pipe
   }
   k_in_remote = 0; unifex::linuxos::currentThreadContext = saved;
 }
@@ -123,7 +190,7 @@ static void inject(int blocking) {
   int now_ = k_syscalls++;
   for (int i = 0; i < 3; ++i) if (act_kind[i] && !act_done[i] && (act_at[i] <= now_ || (blocking && !k_wake))) { act_done[i] = 1; remote(act_kind[i]); }
   int all = 1; for (int i = 0; i < 3; ++i) if (act_kind[i] && !act_done[i]) all = 0;
-  int completed = 0; for (int i = 0; i < 3; ++i) completed += done_[i];
+  int completed = io_done[0] + io_done[1]; for (int i = 0; i < 3; ++i) completed += done_[i];
   // "prompt cancellation": once a stop request for a timer has been delivered and processed, the loop must not need the timer's expiry
   if (blocking && !k_wake && all && completed == expected && !stop_sent) { stop_sent = 1; k_in_remote = 1; auto* sv = unifex::linuxos::currentThreadContext; unifex::linuxos::currentThreadContext = nullptr; run_ss->request_stop(); unifex::linuxos::currentThreadContext = sv; k_in_remote = 0; }
   if (blocking && !(k_efd_count > 0)) for (int i = 0; i < 2; ++i) if (cancel_sent[i] && !done_[i] && k_tfd_armed && !(vf_clock_peek() >= due[i]))
@@ -132,9 +199,24 @@ static void inject(int blocking) {
 extern "C" void h_epoll() {
   for (int i = 0; i < 3; ++i) { act_kind[i] = (int)vf_param(2 * i); act_at[i] = (int)vf_param(2 * i + 1); }
   ctx = new io_epoll_context(); run_ss = new simple_stop_source();
+  bool uses_io = false; for (int i = 0; i < 3; ++i) if (act_kind[i] >= 7) uses_io = true;
+  if (uses_io) { rw = new rw_pair_t(open_pipe(ctx->get_scheduler())); for (int i = 0; i < (int)vf_param(7); ++i) k_push((unsigned char)(0x10 + i)); k_upd(); }
+  int pre_cons = k_ncons, pre_log = k_nlog;
   inside_run = 1; ctx->run(simple_stop_token{run_ss}); inside_run = 0;
   for (int i = 0; i < 3; ++i) if (act_kind[i]) VF_ASSERT(act_done[i], "harness: an environment action never happened");
-  int completed = 0; for (int i = 0; i < 3; ++i) { completed += done_[i]; VF_ASSERT(at_op[i] == nullptr && s_op[i] == nullptr, "an operation never completed although run() returned after it was started"); }
+  VF_ASSERT(r_op == nullptr && w_op == nullptr, "an I/O operation never completed although run() returned after it was started");
+  if (io_done[1] && io_value[1]) {      // bytes actually transferred by the write: exactly io_n bytes, equal to the front of the buffer, appended in order
+    VF_ASSERT(io_n[1] >= 1 && io_n[1] <= 2, "write completed with an impossible byte count");
+    VF_ASSERT(io_n[1] == k_wr_n, "write reported a byte count different from what the pipe accepted");
+    for (int i = 0; i < 2; ++i) if (i < io_n[1]) VF_ASSERT(k_log[k_wr_from + i] == wbuf[i], "bytes written to the pipe differ from the buffer (or are out of order)");
+  }
+  if (io_done[0] && io_value[0]) {
+    VF_ASSERT(io_n[0] >= 1 && io_n[0] <= 2, "read completed with an impossible byte count");
+    VF_ASSERT(io_n[0] == k_rd_n, "read reported a byte count different from what left the pipe");
+    for (int i = 0; i < 2; ++i) if (i < io_n[0]) VF_ASSERT(rbuf[i] == k_log[k_rd_from + i], "bytes delivered by the read differ from the bytes in the pipe (or are out of order)");
+  }
+  if (io_done[0] && !io_value[0]) VF_ASSERT(true, "");
+  int completed = io_done[0] + io_done[1]; for (int i = 0; i < 3; ++i) { completed += done_[i]; VF_ASSERT(at_op[i] == nullptr && s_op[i] == nullptr, "an operation never completed although run() returned after it was started"); }
   VF_ASSERT(completed == expected, "work scheduled on the context was lost");
   // due-time order (ties in submission order) among timers that completed with a value
   // (only when both timers were submitted together: a timer submitted after an earlier one was already reaped can only complete later)
@@ -145,6 +227,8 @@ extern "C" void h_epoll() {
     if (due[0] < due[1]) VF_ASSERT(first == 0, "timers completed out of due-time order");
     if (due[1] < due[0]) VF_ASSERT(first == 1, "timers completed out of due-time order");
   }
+  if (rw) { delete rw; VF_ASSERT(k_closed[k_pr] == 1 && k_closed[k_pw] == 1, "pipe descriptors not closed exactly once"); VF_ASSERT(!k_registered[k_pr] && !k_registered[k_pw], "an I/O descriptor is still registered with epoll after all operations on it completed"); }
+  for (int k = 0; k < 2; ++k) delete io_ss[k];
   delete ctx;
   VF_ASSERT(k_closed[k_ep] == 1 && k_closed[k_efd] == 1 && k_closed[k_tfd] == 1, "a descriptor of the context was not closed exactly once");
   VF_ASSERT(!k_registered[k_efd] && !k_registered[k_tfd], "epoll registration not removed");
